@@ -1,13 +1,17 @@
 def plan(tier):
     q = tier == "quick"
-    mc = [{"module": "HmmMC", "cfg": "HmmMC.cfg" if q else "HmmMC_thorough.cfg", "timeout": 2400}]
+    mc = [{"module": "HmmMC", "cfg": "HmmMC.cfg" if q else "HmmMC_thorough.cfg", "timeout": 2400},
+          {"module": "HmmExpMC", "cfg": "HmmExpMC.cfg" if q else "HmmExpMC_thorough.cfg", "timeout": 2400}]
     if not q:
         mc.append({"module": "HmmMC", "cfg": "HmmMC_s3.cfg", "timeout": 2400})
     return {
         "mc": mc,
-        "families": [{"fam": "hmm", "trace": "HmmTrace"}],
+        "families": [{"fam": "hmm", "trace": "HmmTrace"}, {"fam": "hmmx", "trace": "HmmExpTrace"}],
         "required_obligations": ["mc_family", "t1", "end_dist", "end_zero", "substochastic", "den10", "impossible_obs",
-                                 "unreachable_state", "ties", "long_t", "single_state"],
+                                 "unreachable_state", "ties", "long_t", "single_state",
+                                 # power-of-two class (hmmx): optimum on both sides of -500 nats
+                                 "exp_optimum_above_500", "exp_optimum_below_500", "exp_straddle_500",
+                                 "exp_zero_entries", "exp_ties"],
         "rule": "spec->impl: the S=2,M=2,Den=2 model family of the MC run x all observation sequences T<=3 replayed "
                 "into the real code (quick: 1/8 of it); impl->spec: one run = one model object (plain / opt_end without / opt_end with end distribution; three "
                 "constructors) used for 2-5 observation sequences, each decoded by viterbi, forward and backward",
@@ -15,10 +19,15 @@ def plan(tier):
                          "initial/end families; thorough: all emission/initial rows, two end vectors + none, plus S=3,M=1 "
                          "stochastic)",
                    "impl": "S<=4, M<=3, Den in {2,3,4,5,10}, T<=4 (T<=14 for small Den), Den^(2T+1) <= 2^30, "
-                           "S^T <= 4096 (quick) / 16384 (thorough)"},
+                           "S^T <= 4096 (quick) / 16384 (thorough); power-of-two class: exponents 0..300 or zero, "
+                           "S<=4, T<=6, S^T <= 256, joint log-probabilities from 0 down to about -2700 nats"},
         "assumptions": ["harness projection (the only arithmetic it does): numerator k -> f64 k/den on input; "
                         "log-probability lp -> round(exp(lp)*den^(2T+1)) on output, with flags nan/posinf/neginf "
                         "(exact for scales <= 2e9)",
+                        "power-of-two class (hmmx): exponent e -> f64 2^-e on input (exact); output x = -ln p / ln 2, "
+                        "viterbi as round(x) with the deviation in micro-bits (accepted up to 1e-3 bit), likelihoods "
+                        "as k = ceil(x) and a 16-bit mantissa round(2^(k-x) * 65536), compared within 0.5 % (+ "
+                        "quantisation) with the exact sum over all paths of 2^-(E_p - E_min)",
                         "TLC evaluates the integer path sums faithfully (32-bit, no overflow within the bounds)",
                         "observation sequences are non-empty (property precondition)",
                         "which of several maximal Viterbi paths is returned is not part of the property: any arg-max "
